@@ -672,6 +672,78 @@ theorem reset_is_needed :
     (serveWithoutReset (some (⟨some 7, [99]⟩ : EncObj Nat)) [.write 1]).1 = [.data (some 7) [99, 1], .trailer (some 7)] := by
   decide
 
+/-! ### file_server's precompressed sidecars: the other producer of `Content-Encoding`
+    (the second call site of `AcceptedEncodings`; an encode handler in front trusts the header it sets) -/
+
+/-- **the announced coding is the coding of the bytes sent** — for every order of accepted codings, every set of
+    configured sidecars, every pattern of `Stat` / `Open` outcomes (absent, refused, removed in between …), with or
+    without etag files: a successful response that sends a body announces `Content-Encoding: c` exactly when the
+    body is the `c` sidecar, and nothing when it is the plain file; a sidecar is served only for a coding the client
+    accepts (it is in `AcceptedEncodings`' answer), that is configured, and whose sidecar opened. -/
+theorem sidecar_header_matches_body (accepted : List Bytes) (configured : Bytes → Bool) (state : Bytes → SideState)
+    (etagFails post head : Bool) (status : Nat) (ce : Option Bytes) (body : Served)
+    (h : serveFile false accepted configured state etagFails post head = .served status ce (some body)) :
+    ce = body.coding ∧
+      (∀ c, body = .sidecar c → c ∈ accepted ∧ configured c = true ∧ state c = .ok) := by
+  unfold serveFile at h
+  cases hl : sidecarLoop false configured state etagFails accepted none with
+  | inr e => rw [hl] at h; cases h
+  | inl r =>
+    obtain ⟨ce', opened⟩ := r
+    rw [hl] at h
+    simp only at h
+    split at h
+    · cases h
+    · split at h
+      · cases h
+      · simp only [SideRes.served.injEq] at h
+        obtain ⟨_, hce, hb⟩ := h
+        rcases sidecarLoop_spec configured state etagFails accepted none ce' opened hl with ⟨ho, hc⟩ | ⟨c, ho, hc, hm, hcf, hst⟩
+        · subst ho; subst hc
+          cases head
+          · simp at hb; subst hb; subst hce
+            exact ⟨rfl, fun c hcx => by cases hcx⟩
+          · simp at hb
+        · subst ho; subst hc
+          cases head
+          · simp at hb; subst hb; subst hce
+            exact ⟨rfl, fun c' hcx => by cases hcx; exact ⟨hm, hcf, hst⟩⟩
+          · simp at hb
+
+/-- the same for HEAD: it announces what GET would announce -/
+theorem sidecar_head_like_get (accepted : List Bytes) (configured : Bytes → Bool) (state : Bytes → SideState)
+    (etagFails : Bool) (status : Nat) (ce : Option Bytes)
+    (h : serveFile false accepted configured state etagFails false true = .served status ce none) :
+    ∃ body, serveFile false accepted configured state etagFails false false = .served status ce (some body) := by
+  unfold serveFile at h ⊢
+  cases hl : sidecarLoop false configured state etagFails accepted none with
+  | inr e => rw [hl] at h; cases h
+  | inl r =>
+    obtain ⟨ce', opened⟩ := r
+    rw [hl] at h
+    simp only at h ⊢
+    by_cases hc : (opened.isNone && etagFails) = true
+    · rw [if_pos hc] at h; cases h
+    · rw [if_neg hc] at h ⊢
+      simp only [Bool.false_eq_true, if_false, if_true, SideRes.served.injEq] at h ⊢
+      exact ⟨_, h.1, h.2.1, rfl⟩
+
+/-- **announcing the coding before the sidecar is open mislabels the fallback**: with the header set first, a
+    sidecar that `Stat` sees and `Open` refuses leaves `Content-Encoding: gzip` on a response whose body is the
+    plain file — which an encode handler in front then leaves alone (`ineligible_response_never_encoded`). -/
+theorem sidecar_header_first_mislabels :
+    serveFile true [vGzip] (fun _ => true) (fun _ => .openRefused) false false false
+      = .served 200 (some vGzip) (some .plain) ∧
+    serveFile false [vGzip] (fun _ => true) (fun _ => .openRefused) false false false
+      = .served 200 none (some .plain) := by decide
+
+/-- (the code as it is) an ERROR raised after the sidecar was chosen — 405 for a method other than GET / HEAD, a
+    failing etag file — is returned with the sidecar's `Content-Encoding` still in the header map; whoever writes
+    the error page writes plain bytes under it. The successful paths are `sidecar_header_matches_body`. -/
+theorem sidecar_error_keeps_header :
+    serveFile false [vGzip] (fun _ => true) (fun _ => .ok) false true false = .error 405 (some vGzip) ∧
+    serveFile false [vGzip] (fun _ => true) (fun _ => .ok) true false false = .error 500 (some vGzip) := by decide
+
 /-! ### the caller contract: calls into the response writer are serialised (reverse_proxy's two goroutines)
 
     Every theorem above is about a SEQUENTIAL script of calls — `run` gives no meaning to two calls that overlap,
